@@ -270,8 +270,8 @@ func (fr *Frame) contractCall(b *ssa.BasicBlock, st *State, callee *ssa.Function
 	// requires
 	for _, rq := range c.Requires {
 		env := &SpecEnv{fr: fr, vars: penv, now: st, old: st, pkg: callee.Pkg.Pkg}
-		t := fr.evalBool(rq.E, env)
-		fc.oblige("pre", fr.prefix+shortFn(callee)+"."+rq.Label, guard, t, pos, fr.safetyProps())
+		t, sks := fr.evalGoal(rq.E, env)
+		fc.obligeSplit("pre", fr.prefix+shortFn(callee)+"."+rq.Label, guard, t, pos, fr.safetyProps(), true, sks)
 	}
 	old := st.clone()
 	// havoc
@@ -309,8 +309,8 @@ func (fr *Frame) contractCall(b *ssa.BasicBlock, st *State, callee *ssa.Function
 	}
 	for _, en := range c.Ensures {
 		env := &SpecEnv{fr: fr, vars: renv, now: st, old: old, pkg: callee.Pkg.Pkg}
-		t := fr.evalBool(en.E, env)
-		fc.addFact(guard, t)
+		t, qs := fr.evalFact(en.E, env)
+		fc.addFactQ(guard, t, qs)
 	}
 	return res
 }
@@ -422,6 +422,30 @@ func (fr *Frame) modTargets(m ModLoc, env *SpecEnv) []modTarget {
 					continue
 				}
 				out = append(out, modTarget{"row1", fc.fieldHeap(pt.Elem(), l.path, l.typ), arrSort(sortOf(l.typ)), fr.scalar(v)})
+			}
+			return out
+		case "anyfields":
+			v := fr.evalSpec(e.Args[0], env)
+			pay, pt := fr.ifaceTarget(v)
+			var out []modTarget
+			if pt != nil {
+				if ptr, ok := pt.Underlying().(*types.Pointer); ok {
+					var ls []leaf
+					leafFields(ptr.Elem(), "", &ls)
+					for _, l := range ls {
+						if l.sub {
+							continue
+						}
+						out = append(out, modTarget{"row1", fc.fieldHeap(ptr.Elem(), l.path, l.typ), arrSort(sortOf(l.typ)), pay})
+					}
+					return out
+				}
+			}
+			r := sApp("ipay", fr.scalar(v))
+			for name, sort := range fc.varSort {
+				if strings.HasPrefix(name, "F:") {
+					out = append(out, modTarget{"row1", name, sort, r})
+				}
 			}
 			return out
 		case "heap":
@@ -826,8 +850,9 @@ func (fr *Frame) execAppend(b *ssa.BasicBlock, st *State, args []Val, resT types
 	// appending nothing to a nil slice keeps nil; model: result id fresh
 	r := fc.freshConst("sl_app", "Int")
 	freshArr := fr.alloc(st, "arr")
-	arrR := sIte(inplace, arrS, freshArr)
-	offR := sIte(inplace, offS, "0")
+	arrR := fc.freshConst("app_arr", "Int")
+	offR := fc.freshConst("app_off", "Int")
+	fc.addFact("true", sAnd(sEq(arrR, sIte(inplace, arrS, freshArr)), sEq(offR, sIte(inplace, offS, "0"))))
 	heapBefore := fc.get(st, h)
 	oldRowS := sSel(heapBefore, arrS)
 	rowT := sSel(heapBefore, sApp("sl_arr", t))
@@ -846,6 +871,17 @@ func (fr *Frame) execAppend(b *ssa.BasicBlock, st *State, args []Val, resT types
 	// in place: everything outside the appended window is unchanged
 	rowFacts = append(rowFacts, sImp(inplace, fmt.Sprintf("(forall ((j Int)) (! (=> (or (< j (+ %s %s)) (>= j (+ %s %s))) (= (select %s j) (select %s j))) :pattern ((select %s j))))", offS, lenS, offS, newLen, newRow, oldRowS, newRow)))
 	fr.assume(b, sAnd(rowFacts...))
+	if b8, ok := el.Underlying().(*types.Basic); ok && b8.Kind() == types.Uint8 {
+		fr.specNative("bcat")
+		var tseq string
+		if srcIsString {
+			fr.declBytesOf()
+			tseq = sApp("strbytes", t)
+		} else {
+			tseq = sApp("bseq", rowT, offT, lenT)
+		}
+		fr.assume(b, sEq(sApp("bseq", newRow, offR, newLen), sApp("u_bcat", sApp("bseq", oldRowS, offS, lenS), tseq)))
+	}
 	fc.logWrite(h, arrR)
 	if activeLogs[fc] != nil {
 		// in a dry run the target row depends on 'inplace'; record both possibilities
